@@ -156,6 +156,26 @@ def prune_stats(cases):
     return st
 
 
+def explain_prune(case_rows, row):
+    """For a rejected Prune step: what the real call did, in model hours (the declarative expectation is
+    StateStore!PrunePost on the state before)."""
+    if row["ev"] != "Prune" or not row.get("st"):
+        return ""
+    pre = [r for r in case_rows if r["i"] == row["i"] - 1]
+    if not pre:
+        return ""
+    pre, post = pre[0]["st"], row["st"]
+    h = lambda t: "-" if t == 0 else "%dh" % (t // 1000)
+    postc = {c["id"] for c in post["changes"]}
+    fmt = lambda cs: ",".join("#%d(spawn %s ready %s, %d tasks)" % (c["id"], h(c["spawn"]), h(c["ready"]), len(c["tasks"])) for c in cs) or "none"
+    gone = [c for c in pre["changes"] if c["id"] not in postc]
+    kept = [c for c in pre["changes"] if c["id"] in postc]
+    pt = {t["id"]: t["status"] for t in pre["tasks"]}
+    ch = ["t%d %s->%s" % (t["id"], pt[t["id"]], t["status"]) for t in post["tasks"] if t["id"] in pt and pt[t["id"]] != t["status"]]
+    return " [real Prune at 1000h removed %s; kept %s; task status changes: %s; taskCount %d->%d]" % (
+        fmt(gone), fmt(kept), ",".join(ch) or "none", pre["taskCount"], post["taskCount"])
+
+
 def op_counts(cases):
     n = {}
     for c in cases:
@@ -306,8 +326,8 @@ def run(ctx, prop):
         else:
             who = owner_of_prop(inv) if inv else owner_of_step(row["ev"])
             key = key_for(case_rows, row, inv or "real step differs from StateStore")
-            desc = "%s at %s (case %s step %s): real post-state is not the spec's; ops: %s" % (
-                reason, row["ev"], row["case"], row["i"], short_ops(ops))
+            desc = "%s at %s (case %s step %s): real post-state is not the spec's%s; ops: %s" % (
+                reason, row["ev"], row["case"], row["i"], explain_prune(case_rows, row), short_ops(ops))
         v = Violation(key=key, desc=desc, replay={"how": "VERIF_REPLAY=<file with this object as one line> go test -run TestVerifStateStore (harness/ext/statestore)",
                                                   "case": row["case"], "ops": ops, "info": seedinfo,
                                                   "real_post_state": row["st"], "ret": row["ret"], "panic": row["panic"]})
